@@ -143,7 +143,9 @@ def check_parse(repo_src, rnd, table=None, inputs=None, random_only=False):
     for c, r in zip(cases, res):
         s = c['s']
         if r is None or r.get('panic'):
-            out.append(_disc('parse', ['C01', 'C18', 'C12'], c, 'Ok or Err', 'panic/abort', 'parse_expression (or expr()/describe() of its result) did not return'))
+            stage = (r or {}).get('stage')
+            props = ['C01', 'C10', 'C05'] if stage == 'parse' else (['C01', 'C18', 'C12'] if stage == 'print' else ['C01', 'C18', 'C12', 'C10'])
+            out.append(_disc('parse', props, c, 'Ok or Err', 'panic/abort' + (' while ' + ('tokenizing / parsing' if stage == 'parse' else 'rendering with expr() / describe()') if stage else ''), 'parse_expression (or expr()/describe() of its result) did not return'))
             continue
         try:
             ast = oracle.parse(s, T); exp = ('ok', oracle.dbg(ast))
@@ -229,7 +231,21 @@ def check_exec(repo_src, rnd, inputs=None, random_only=False):
             out.append(_disc('exec', ['C06', 'C07'], c, ';'.join('%s=%s' % (k, oracle.vdbg(exp_vars[k])) for k in sorted(exp_vars)), r.get('vars'), 'the bindings left in the context differ'))
     return out, len(cases)
 
+ACC = {'none': set(), 'bool': {'bool'}, 'false': {'bool'}, 'num': {'decimal', 'integer', 'float'}, 'zero': {'decimal', 'integer', 'float'}, 'frac': {'decimal', 'float'}, 'str': {'string'}, 'empty_str': {'string'},
+       'list': {'list'}, 'empty_list': {'list'}, 'map': set()}
 def check_conv(repo_src, rnd):
+    out0 = []
+    cases0 = [dict(m='conv', s='acc:' + k) for k in ACC]
+    for c, r in zip(cases0, run_cases(cases0, repo_src)):
+        k = c['s'][4:]
+        if r is None or r.get('panic') or not r.get('ok'):
+            out0.append(_disc('conv', ['C17', 'C04'], c, 'Ok/Err per accessor', 'panic/abort', 'a Value accessor did not return')); continue
+        got = dict(x.split('=') for x in r['val'].strip('"').split())
+        exp = ' '.join('%s=%s' % (a, 'true' if a in ACC[k] else 'false') for a in ['bool', 'decimal', 'string', 'list', 'integer', 'float'])
+        obs = ' '.join('%s=%s' % (a, got.get(a)) for a in ['bool', 'decimal', 'string', 'list', 'integer', 'float'])
+        if exp != obs:
+            out0.append(_disc('conv', ['C17', 'C03', 'C04'], c, exp, obs, 'an accessor accepts a value of another type (or rejects one of its own): conversions must not coerce'))
+    res0 = (out0, len(cases0))
     ins = corpus.conv_cases()
     cases = [dict(m='conv', s=s) for s in ins]
     res = run_cases(cases, repo_src)
@@ -257,7 +273,7 @@ def check_conv(repo_src, rnd):
             exp = 'Some(%d)' % n if -(2**63) <= n < 2**63 else 'None'
             if r.get('int') != exp:
                 out.append(_disc('conv', ['C17', 'C04'], c, 'integer() = %s' % exp, r.get('int'), 'integer() of Value::from(%s)' % c['s']))
-    return out, len(cases)
+    return res0[0] + out, res0[1] + len(cases)
 
 def check_scripts(repo_src, rnd):
     out = []; n = 0
@@ -314,7 +330,7 @@ def check_scripts(repo_src, rnd):
     return out, n
 
 CATS = {'parse': check_parse, 'exec': check_exec, 'conv': check_conv, 'script': check_scripts}
-PROP_CATS = {'C01': ['parse', 'exec'], 'C02': ['parse', 'script'], 'C03': ['exec', 'script', 'conv'], 'C04': ['exec', 'conv', 'script'], 'C05': ['parse', 'script'], 'C06': ['exec', 'script'], 'C07': ['exec', 'script'], 'C08': ['script', 'exec'],
+PROP_CATS = {'C01': ['parse', 'exec', 'script'], 'C02': ['parse', 'script'], 'C03': ['exec', 'script', 'conv'], 'C04': ['exec', 'conv', 'script'], 'C05': ['parse', 'script'], 'C06': ['exec', 'script'], 'C07': ['exec', 'script'], 'C08': ['script', 'exec'],
              'C09': ['exec', 'parse', 'script'], 'C10': ['parse', 'script'], 'C12': ['parse', 'script'], 'C17': ['conv'], 'C18': ['parse', 'script']}
 _cache = {}
 def run_category(cat, repo_src, seed=0, random_only=False):
